@@ -6,7 +6,7 @@
    issue order, so "<" on request numbers IS issue order.  [log] is the execution log (the request
    whose method body is entered is appended; the model executes one request at a time — that the
    real worker does so too is part of the correspondence: enter/exit records never nest). *)
-Require Import QV.C01.Model QV.C01.ProofsBasic QV.C01.ProofsOrder.
+Require Import QV.C01.Model QV.C01.ProofsBasic QV.C01.ProofsOrder QV.C03.ProofsSerial.
 From Coq Require Import Sorted.
 
 (* per calling thread, requests are executed in the order in which they were issued *)
@@ -50,3 +50,38 @@ Example C03_example :
      LNetC2S 1 true; LReply true; LHandoff 3 true; LPop; LExec; LReply true; LPop; LExec; LSockSend 3 true;
      LNetC2S 3 true; LReply true; LPop; LExec]) = Some [0; 2; 1; 3].
 Proof. vm_compute. reflexivity. Qed.
+
+(* ---- one at a time ---- *)
+
+(* between two method bodies (LExec) of ANY run - any number of callers, contexts, removal / stop /
+   disconnect steps interleaved - the reply step of the first body and the pop step of the next
+   request have happened: two bodies never overlap *)
+Theorem C03_serial : forall fx info ls s' l1 l2 l3,
+  run fx info init ls = Some s' -> ls = l1 ++ LExec :: l2 ++ LExec :: l3 ->
+  In LPop l2 /\ exists ok, In (LReply ok) l2.
+Proof. exact serial. Qed.
+Print Assumptions C03_serial.
+
+(* in every reachable state the worker holds at most one request (popped and not yet run, or run and
+   not yet answered) *)
+Theorem C03_worker_holds_one : forall fx info ls s',
+  run fx info init ls = Some s' -> cur s' = None \/ replying s' = None.
+Proof. exact worker_holds_one. Qed.
+Print Assumptions C03_worker_holds_one.
+
+(* the body that runs is the popped request's, and nothing but a body extends the execution log *)
+Theorem C03_exec_runs_popped : forall fx info s l s' r,
+  step fx info s l = Some s' -> cur s = Some r -> replying s = None ->
+  (l = LExec -> log s' = log s ++ [r]) /\ (l <> LExec -> log s' = log s).
+Proof. exact exec_runs_popped. Qed.
+Print Assumptions C03_exec_runs_popped.
+
+(* Non-vacuity of C03_serial: the run of C03_example has the shape l1 ++ LExec :: l2 ++ LExec :: l3,
+   and a worker that runs a second body before answering the first is refused by the model. *)
+Example C03_serial_refuses_overlap :
+  let info := fun r => mkInfo false r true true (OValue r) in
+  run true info init [LIssue 0 true; LIssue 1 true; LPop; LExec; LPop] = None /\
+  run true info init [LIssue 0 true; LIssue 1 true; LPop; LExec; LExec] = None /\
+  option_map log (run true info init [LIssue 0 true; LIssue 1 true; LPop; LExec; LReply true; LPop; LExec])
+    = Some [0; 1].
+Proof. vm_compute. auto. Qed.
